@@ -788,14 +788,18 @@ def hx(b: bytes) -> str:
 def run_fmt_case(fmt: str, types: Sequence[int], part: Sequence[int], last: int) -> Dict[str, Any]:
     """Drive the real formatter class directly: write(batch) for each size in `part`, then finalize(last batch)."""
     E = env()
-    cls = E["get_formatter"](fmt)
-    d = tempfile.mkdtemp(prefix="pyrtma_verif_dlfmt_")
-    path = os.path.join(d, "f" + cls.ext)
     msgs = [mk_msg(t, k + 1) for k, t in enumerate(types)]
     out: Dict[str, Any] = {"fmt": fmt, "msgs": [key_of(m) for m in msgs], "part": list(part), "last": last,
                            "exc": None}
     if fmt == "json":
         out["json"] = [m.to_json(minify=True) for m in msgs]
+    try:
+        cls = E["get_formatter"](fmt)
+    except Exception as e:  # noqa: BLE001   (the registry of formatters is part of the code under test)
+        out.update(exc="get_formatter:" + type(e).__name__, file=b"", read=[])
+        return out
+    d = tempfile.mkdtemp(prefix="pyrtma_verif_dlfmt_")
+    path = os.path.join(d, "f" + cls.ext)
     try:
         fd = open(path, cls.mode)
         try:
